@@ -13,7 +13,9 @@ VARIABLES
     \* @type: Seq(Seq(Int));
     out,
     \* @type: Seq(Seq(Int));
-    exp
+    exp,
+    \* @type: Seq(Int);
+    rt     \* an arbitrary (N)RPN message, fixed at the start (for the round-trip theorem)
 
 Chans == 0..15
 B7 == (-1)..127
@@ -21,7 +23,7 @@ B7 == (-1)..127
 GhostOf(st) == [nm |-> st.nm, nl |-> st.nl, kind |-> st.reg, v38 |-> st.vl]
 
 Init == /\ sc = [c \in Chans |-> PnInit] /\ gh = [c \in Chans |-> PnGhostInit]
-        /\ out = <<>> /\ exp = <<>>
+        /\ out = <<>> /\ exp = <<>> /\ rt = Pn7(0, 0, 0, FALSE, 0)
 
 Feed == \E s \in 128..255, d1 \in 0..127, d2 \in 0..127 :
     LET m == Msg3(s, d1, d2)  c == MsgChannel(m) IN
@@ -36,7 +38,7 @@ Feed == \E s \in 128..255, d1 \in 0..127, d2 \in 0..127 :
 Reset == /\ sc' = [c \in Chans |-> PnReset(sc[c])] /\ gh' = [c \in Chans |-> PnGhostReset(gh[c])]
          /\ out' = <<>> /\ exp' = <<>>
 
-Next == Feed \/ Reset
+Next == (Feed \/ Reset) /\ UNCHANGED rt
 
 \* @type: ($pnSt, $pnGhost) => Bool;
 Linked(st, g) == g.nm = st.nm /\ g.nl = st.nl /\ g.v38 = st.vl /\ g.kind = st.reg
@@ -46,10 +48,26 @@ InRangeSt(st) == st.nm \in B7 /\ st.nl \in B7 /\ st.vl \in B7
 IndInv == /\ \A c \in Chans : InRangeSt(sc[c]) /\ Linked(sc[c], gh[c])
           /\ out = exp
 
+\* C10 for ALL messages and ALL states consistent with IndInv (unrolled, Apalache has no recursion):
+\* feeding the LSB-first encoding yields nothing until the last Control Change and then the message
+\*   apalache-mc check --init=IndInit --inv=RtInv --length=0 Ind_Pn.tla
+\* @type: ($pnSt, Seq(Int)) => Bool;
+RoundTripUnrolled(st, msg) ==
+    LET e  == PnEncode(msg, "lsb")
+        r1 == PnFeed(st, e[1])
+        r2 == PnFeed(r1.st, e[2])
+        r3 == PnFeed(r2.st, e[3])
+    IN /\ r1.out = <<>> /\ r2.out = <<>>
+       /\ IF e[4] = NoMsg THEN r3.out = <<msg>>
+          ELSE r3.out = <<>> /\ PnFeed(r3.st, e[4]).out = <<msg>>
+RtInv == RoundTripUnrolled(sc[rt[1]], rt)
+
 \* an ARBITRARY state satisfying IndInv (field-wise, so that nothing has to be enumerated)
 IndInit == /\ \E fm \in [Chans -> B7], fl \in [Chans -> B7], fr \in [Chans -> BOOLEAN], fv \in [Chans -> B7] :
                  sc = [c \in Chans |-> [nm |-> fm[c], nl |-> fl[c], reg |-> fr[c], vl |-> fv[c]]]
            /\ gh = [c \in Chans |-> GhostOf(sc[c])]
+           /\ \E c \in Chans, n \in 0..16383, v \in 0..16383, r \in BOOLEAN, k \in 0..3 :
+                 rt = IF k = 3 THEN Pn14(c, n, v, r) ELSE Pn7(c, n, v % 128, r, k)
            /\ out = <<>> /\ exp = <<>>
            /\ IndInv
 ===============================================================================
